@@ -37,7 +37,13 @@ const _: () = {
             if !self.output.is_empty() {
                 self.output.push('&');
             }
-            key.serialize(&mut **self)
+            let start = self.output.len();
+            key.serialize(&mut **self)?;
+            if self.output.len() == start {
+                /* `=value` is refused by the deserializer */
+                return Err(serde::ser::Error::custom("invalid key-value: empty key"))
+            }
+            Ok(())
         }
         fn serialize_value<T: ?Sized>(&mut self, value: &T) -> Result<(), Self::Error>
         where T: serde::Serialize {
